@@ -41,11 +41,18 @@ structure Params where
   runnerClearedAfterWait : Bool
   /-- net/rpc: the host's yamux session runs with keep-alive (the only thing that ends a call to a frozen peer) -/
   rpcKeepAlive : Bool
+  /-- `Start` records the runner in `c.runner` BEFORE it calls `runner.Start`, so a runner whose `Start` failed after it
+  had launched something is still there for `Kill` to act on -/
+  runnerKeptBeforeStart : Bool
+  /-- gRPC, plugin side: the `Shutdown` handler stops the server at once and for good (`Stop()`, in the handler itself):
+  `Serve` returns without waiting for requests that are still being served -/
+  grpcStopImmediate : Bool
   deriving DecidableEq, Repr
 
 def Params.Good (P : Params) : Prop :=
   P.graceMs = 2000 ∧ P.forceAfterGrace = true ∧ P.shutdownRpcHasDeadline = true ∧ P.quitEofIsGraceful = true ∧
-  P.waitsForGoroutines = true ∧ P.runnerClearedAfterWait = true ∧ P.rpcKeepAlive = true
+  P.waitsForGoroutines = true ∧ P.runnerClearedAfterWait = true ∧ P.rpcKeepAlive = true ∧
+  P.runnerKeptBeforeStart = true ∧ P.grpcStopImmediate = true
 
 instance (P : Params) : Decidable P.Good := by unfold Params.Good; exact inferInstance
 
@@ -125,5 +132,22 @@ overlapping call still sees it and goes through the whole procedure itself — i
 def killDuring (P : Params) (proto : Proto) (beh : Beh) (replyLost hasAddr closeAgainOk : Bool) : Outcome :=
   if P.runnerClearedAfterWait then kill P proto beh replyLost hasAddr closeAgainOk
   else ⟨true, false, false, false, false, 0⟩
+
+/-- `Kill` on a client whose launch failed INSIDE `runner.Start` although the (custom) runner had already created the
+plugin process (a runner that creates a workload and then waits for it to become ready, and gives up when the start
+context expires).  `Start` has returned the error before any of its own clean-up was armed: the only thing that can end
+that process is `Kill` calling `runner.Kill` — which it does exactly if the runner was recorded before `runner.Start`
+(otherwise `Kill` finds no runner and returns at once).  No goroutine watches such a process, so `Exited()` stays
+false: only the process's end is claimed here. -/
+def killStartFailed (P : Params) : Outcome :=
+  if P.runnerKeptBeforeStart then ⟨true, true, true, false, false, 0⟩ else ⟨true, false, false, false, false, 0⟩
+
+/-- `Kill` of a connected, healthy gRPC plugin that is BUSY (a request is still being served when the shutdown request
+arrives) and needs `cleanupMs` of its own after its server has stopped.  The grace timer starts when the shutdown RPC
+has been answered; the plugin's clean-up starts when `Serve` returns — at once if the handler stops the server
+immediately, and otherwise only when the in-flight request lets it (no bound from the request's side). -/
+def killBusy (P : Params) (cleanupMs : Nat) : Outcome :=
+  if P.grpcStopImmediate ∧ cleanupMs < P.graceMs then ⟨true, false, true, P.waitsForGoroutines, true, P.graceMs⟩
+  else ⟨true, P.forceAfterGrace, P.forceAfterGrace, P.forceAfterGrace && P.waitsForGoroutines, false, P.graceMs⟩
 
 end GoPlugin.Kill
